@@ -438,7 +438,9 @@ func (h *harness) checkOrdered(where string, lo, hi int64, visible func(id strin
 		}
 	}
 	e.Probe("reach.ordered_query_checked")
-	e.Event("%s: ordered query %s cond=%q: %d matching traces whole", where, rule, condTag, matched)
+	// the number of matching traces depends on what samplers have removed so far (engine timing): diagnostics only
+	e.Event("%s: ordered query %s cond=%q: every matching trace whole", where, rule, condTag)
+	e.Note("%d traces matched", matched)
 }
 
 // checkSidx compares, per ordered index and trace, the physical rows found by a raw scan of the index (key ->
